@@ -177,7 +177,11 @@ def _write_replay(prop, case, res, viol, tier, seed):
     d = os.path.join(env.VERIF, "replays", prop)
     os.makedirs(d, exist_ok=True)
     slug = "".join(c if c.isalnum() or c in "-_." else "_" for c in "%s-%s" % (viol.get("key", "v"), case.get("id")))[:150]
+    k = 0
     path = os.path.join(d, slug + ".json")
+    while os.path.exists(path):
+        k += 1
+        path = os.path.join(d, "%s-%d.json" % (slug, k))
     with open(path, "w") as f:
         json.dump({"property": prop, "tier": tier, "seed": seed, "case": case, "violation": viol,
                    "result": res}, f, indent=1, default=_jsonable)
@@ -216,6 +220,7 @@ def main(modname, argv=None):
             print("VIOLATION property=%s replay=%s" % (prop, args.replay))
         return 1 if bad else 0
 
+    shutil.rmtree(os.path.join(env.VERIF, "replays", prop), ignore_errors=True)
     cases = mod.gen_cases(tier, seed)
     if args.only:
         cases = [c for c in cases if args.only in str(c.get("id"))]
@@ -243,6 +248,7 @@ def main(modname, argv=None):
     outcomes = collections.Counter()
     sigs = set()
     violations = []   # (case, res, viol)
+    evals = 0
     for r in results:
         outcomes[r.get("outcome", "?")] += 1
         for k, v in r.get("counters", {}).items():
@@ -251,6 +257,9 @@ def main(modname, argv=None):
             inconclusive.append("harness error in case %s: %s" % (r["id"], r.get("error", "")[-400:]))
         if r.get("nontrivial"):
             sigs.add(json.dumps(r.get("sig"), sort_keys=True, default=_jsonable))
+        for sg in r.get("sigs", []):   # a case that bundles several executions reports each signature
+            sigs.add(json.dumps(sg, sort_keys=True, default=_jsonable))
+        evals += int(r.get("evals", 1))
         for v in r.get("violations", []):
             violations.append((by_id.get(r["id"], {"id": r["id"]}), r, v))
     fin = {}
@@ -276,8 +285,8 @@ def main(modname, argv=None):
             new.append((case, res, v))
 
     # ------------------------------------------------------------------ report
-    print("== %s tier=%s seed=%d cases=%d results=%d distinct_nontrivial=%d wall=%.1fs" % (
-        prop, tier, seed, len(cases), len(results), len(sigs), time.time() - t0))
+    print("== %s tier=%s seed=%d cases=%d results=%d executions=%d distinct_nontrivial=%d wall=%.1fs" % (
+        prop, tier, seed, len(cases), len(results), evals, len(sigs), time.time() - t0))
     print("   outcomes: " + ", ".join("%s=%d" % kv for kv in sorted(outcomes.items())))
     if counters:
         print("   monitors: " + ", ".join("%s=%d" % kv for kv in sorted(counters.items())))
@@ -303,7 +312,7 @@ def main(modname, argv=None):
     for r in results[:: max(1, len(results) // 4)][:4]:
         samples.append({"case": by_id.get(r["id"]), "outcome": r.get("outcome"), "obs": r.get("obs")})
     cov = {
-        "evaluations": len(results),
+        "evaluations": evals,
         "distinct_nontrivial": len(sigs),
         "rule": mod.RULE,
         "samples": samples or [{"note": "no case ran"}],
@@ -312,6 +321,8 @@ def main(modname, argv=None):
         "known_findings_reproduced": {k: v[1] for k, v in known_hits.items()},
         "new_violation_keys": dict(seen_keys),
         "inconclusive": inconclusive[:8],
+        "violation_witnesses": [{"key": v.get("key"), "case": c.get("id"), "what": str(v.get("what"))[:240]}
+                                for c, _r, v in new[:60]],
         "workers": args.workers,
     }
     cov.update(fin.get("coverage", {}))
